@@ -253,10 +253,11 @@ def r6(ctx, prog):
         return
     bits = prog.const("MI_BITMAP_FIELD_BITS")
     it = Interp(prog)
+    it.lazy_locals = True
     n = 0
     seen = set()
-    for p_, q, e, pol in rl.edges_with_fact(g, lambda e, pol: isinstance(e, int) and rl.oriented(g, e, pol, rl.is_field(g, "field_count"), lambda j: g.mentions_call(j, "mi_bitmap_index_field")) is not None):
-        c = rl.oriented(g, e, pol, rl.is_field(g, "field_count"), lambda j: g.mentions_call(j, "mi_bitmap_index_field"))
+    for p_, q, e, pol in rl.edges_with_fact(g, lambda e, pol: isinstance(e, int) and rl.oriented(g, e, pol, rl.is_field(g, "field_count"), lambda j: "mi_bitmap_index_field(" in rl.canon(g, j)) is not None):
+        c = rl.oriented(g, e, pol, rl.is_field(g, "field_count"), lambda j: "mi_bitmap_index_field(" in rl.canon(g, j))
         if c[0] not in ("<=", "<") or not rl.can_reach_call(g, q, lambda m: m.get("callee") == "_mi_error_message") or (e, pol) in seen:
             continue
         seen.add((e, pol))
